@@ -59,6 +59,63 @@ def gen_env(rng, fields):
         rows.append(({k: v for k, v in r.items() if k in fields or k == "extra"}, rw, j))
     return rows
 
+class Rec2:
+    """answers with a PMF over action lists that hold duplicate arms, or with extra outputs given as a read-only mapping"""
+    def __init__(self, style): self.style, self.learns, self.n = style, [], 0
+    def predict(self, context, actions):
+        import types
+        self.n += 1
+        if self.style == "pmf-dup":
+            first = {}
+            for j, a in enumerate(actions): first.setdefault(repr(a), j)
+            later = [j for j, a in enumerate(actions) if first[repr(a)] != j]
+            pmf = [0.0] * len(actions)
+            if later:
+                for j in later: pmf[j] = 1.0 / len(later)      # all the mass on arms that repeat an earlier arm: the first copy has probability 0
+            else: pmf[self.n % len(actions)] = 1.0
+            return pmf
+        a = actions[self.n % len(actions)]
+        kw = types.MappingProxyType({"k": self.n, "tag": "t%d" % self.n})
+        return (a, kw) if self.style == "proxy-a" else (a, 0.5, kw)
+    def learn(self, context, action, reward, probability, **kw): self.learns.append((action, reward, probability, dict(kw)))
+
+def check_learner_outputs(ctx, n_cases):
+    """on-policy: learn and the recorded row get the learner's own probability and extra outputs, also with duplicate arms and read-only mappings"""
+    from coba.evaluators import SequentialCB
+    rng = ctx.rng
+    for _ in range(n_cases):
+        style = rng.choice(["pmf-dup", "pmf-dup", "proxy-a", "proxy-ap"])
+        rows = []
+        for i in range(rng.choice([1, 2, 4])):
+            base = rng.sample([1, 2, 3, 4], rng.choice([2, 3]))
+            acts = base + ([rng.choice(base)] if style == "pmf-dup" and rng.random() < 0.8 else [])
+            if rng.random() < 0.4: acts = [[a, 0] for a in acts]      # feature-vector arms
+            rw = [rng.choice([0, 0.25, 1]) for _ in acts]
+            for j, a in enumerate(acts):      # equal arms earn equal rewards
+                rw[j] = rw[[repr(x) for x in acts].index(repr(a))]
+            rows.append(dict(context=[i], actions=acts, rewards=rw))
+        case = dict(style=style, rows=rows)
+        ctx.count("learner-outputs:" + style, repr(case), True)
+        lrn = Rec2(style)
+        try: out = list(SequentialCB(["reward", "action", "probability"], "on", "on", seed=rng.randrange(1, 50)).evaluate(Env(rows), lrn))
+        except Exception as e:
+            ctx.fail(["evaluate", "raises", errname(e), "learner-outputs", style], "%s learner: evaluate raised %s: %s" % (style, errname(e), str(e)[:100]), case); continue
+        if len(out) != len(rows) or len(lrn.learns) != len(rows):
+            ctx.fail(["evaluate", "learn-count", style], "%d rows / %d learn calls for %d interactions" % (len(out), len(lrn.learns), len(rows)), case); continue
+        for k, (r, o, (a, rr, p, kw)) in enumerate(zip(rows, out, lrn.learns)):
+            if style == "pmf-dup":
+                reps = [repr(x) for x in r["actions"]]
+                dup = len(set(reps)) < len(reps)
+                later = [j for j in range(len(reps)) if reps.index(reps[j]) != j]
+                want_p = (1.0 / len(later)) if dup else 1.0
+                if not any(a == x for x in r["actions"]) or abs((p or 0) - want_p) > 1e-9 or abs((o.get("probability") or 0) - want_p) > 1e-9:
+                    ctx.fail(["evaluate", "learn-trace", "pmf-duplicate-arms"], "interaction %d: actions %s, PMF mass only on the repeated arms (%s each); learn got action %r with probability %r, the row says %r" % (k, r["actions"], want_p, a, p, o.get("probability")), case); break
+            else:
+                want_kw = {"k": k + 1, "tag": "t%d" % (k + 1)}
+                want_p = None if style == "proxy-a" else 0.5
+                if kw != want_kw or p != want_p:
+                    ctx.fail(["evaluate", "learn-trace", "mapping-kwargs"], "interaction %d: the learner returned extra outputs %s (a read-only mapping) and probability %r; learn got probability %r and extra outputs %s" % (k, want_kw, want_p, p, kw), case); break
+
 def run(ctx):
     from coba.evaluators import SequentialCB
     from coba.exceptions import CobaException
@@ -151,6 +208,7 @@ def run(ctx):
                     rr = 0.25 * r["reward"] / (r.get("probability") or 1)
                     if abs(o.get("reward", 1e9) - rr) > 1e-9: ctx.fail(["evaluate", "row-reward", "ips-score"], "row %d reward %r, expected score*ips = %r" % (k, o.get("reward"), rr), case); ok = False; break
             if ok: ctx.sample(dict(case=case, rows=out[:2], calls=[c[:3] for c in lrn.calls[:4]]), cap=4)
+    check_learner_outputs(ctx, ctx.n(200, 2500))
     # fixed findings
     ctx.count("corpus", "time-without-learn")
     try: list(SequentialCB(["reward", "time"], learn=None, eval="on").evaluate(Env([{"context": 1, "actions": [1, 2], "rewards": [0, 1]}]), Rec()))
